@@ -1,11 +1,3 @@
-import SlipVerif.Model.Flavors
+import SlipVerif.Lemmas.Flavors
 namespace SlipVerif.Flavors
-
-theorem mem_dedup (x : Name) (l : List Name) : x ∈ dedup l ↔ x ∈ l := by
-  induction l with
-  | nil => simp [dedup]
-  | cons y ys ih =>
-    simp only [dedup, List.mem_cons, List.mem_filter, ih]
-    by_cases h : x = y <;> simp [h]
-
 end SlipVerif.Flavors
